@@ -256,7 +256,7 @@ pub fn c03(em: &mut Emit, thorough: bool, seed: u64) {
     for _ in 0..n_random {
         let len = *rng.pick(&lens);
         let many = rng.chance(1, 4);
-        let n = 1 + rng.usize(if many { 8 } else { 3 });
+        let n = if rng.chance(1, 200) { *rng.pick(&[63usize, 64, 65, 100, 257, 600]) } else { 1 + rng.usize(if many { 8 } else { 3 }) };
         let specs: Vec<RenderedSpec> = (0..n).map(|_| random_rendered(&mut rng, len)).collect();
         emit_c03(em, &specs, len);
     }
@@ -405,6 +405,25 @@ pub fn c04(em: &mut Emit, thorough: bool, seed: u64) {
                             }
                         }
                     }
+                }
+            }
+        }
+    }
+    // an entity whose own tag looks like a proxy-modified one: still compared as it is
+    for opq in [&b"x-gzip"[..], b"x-br", b"x;gzip"] {
+        let tv = tag_variants(opq);
+        for et in [Some(strong(opq)), Some(weak(opq)), Some(strong(b"x"))] {
+            let mut e = HEntity::new(10);
+            e.etag = et.as_ref().map(|t| t.render());
+            e.mtime = Some(UNIX_EPOCH + Duration::new(T0, 0));
+            for im in &tv {
+                for inm in &tv {
+                    let mut q = HReq::get();
+                    q.if_match = im.render();
+                    q.if_none_match = inm.render();
+                    let o = observe_serve(&q, &e);
+                    let p = c04_pred(et.as_ref(), Some(T0), im, inm, None, None, &o);
+                    em.case(&serve_line(&q, &e, o.now), &o.show(), &p, &format!("marker-tag:{}", o.status));
                 }
             }
         }
@@ -864,7 +883,9 @@ pub fn c14(em: &mut Emit, thorough: bool, seed: u64) {
         .duration_since(UNIX_EPOCH)
         .unwrap()
         .as_secs();
-    let mut etags: Vec<Option<&[u8]>> = vec![None, Some(b"\"s1\""), Some(b"W/\"w1\"")];
+    // (the last two: tags that end like the markers compressing proxies splice into tags)
+    let mut etags: Vec<Option<&[u8]>> =
+        vec![None, Some(b"\"s1\""), Some(b"W/\"w1\""), Some(b"\"s1-gzip\""), Some(b"W/\"w1-br\"")];
     if thorough {
         // tags with list punctuation inside, empty opaque part, obs-text
         etags.extend([Some(&b"\"a, b\""[..]), Some(&b"\"\""[..]), Some(&b"W/\"\xe9, \xe9\""[..])]);
@@ -1177,7 +1198,31 @@ pub fn c15_requests(rng: &mut Rng, n: usize) -> Vec<(HReq, HEntity)> {
         }
         v.push((q, e));
     }
+    // many ranges in one request (tiny parts of a large entity: still a multipart response)
+    for k in [16usize, 17, 63, 64, 65, 66, 100, 128, 129, 255, 256, 257, 1000] {
+        for len in [100_000u64, 1 << 40] {
+            let mut e = HEntity::new(len);
+            e.etag = Some(b"\"s\"".to_vec());
+            e.headers = vec![("x-ent-a".into(), b"v".to_vec())];
+            let mut q = HReq::get();
+            q.range = Some(many_ranges(k, len));
+            v.push((q, e));
+        }
+    }
     v
+}
+
+/// `k` satisfiable two-byte ranges spread over an entity of `len` bytes, not in ascending order.
+pub fn many_ranges(k: usize, len: u64) -> Vec<u8> {
+    let step = (len / (k as u64 + 1)).max(3);
+    let mut specs: Vec<String> = (0..k as u64)
+        .map(|i| {
+            let a = (i * step) % (len - 2);
+            format!("{}-{}", a, a + 1)
+        })
+        .collect();
+    specs.swap(0, k - 1);
+    format!("bytes={}", specs.join(", ")).into_bytes()
 }
 
 pub fn c15(em: &mut Emit, thorough: bool, seed: u64) {
